@@ -25,6 +25,15 @@ def generate(ctx):
             spec = falib.rand_fa(ctx.rng, kind="enfa", profile="epsonly", names=names, max_states=4)
         else:
             spec = falib.rand_fa(ctx.rng, names=names, max_states=4)
+        if i % 17 == 3 and len(spec["states"]) >= 2 and spec["kind"] != "dfa":
+            # several start states and states already named like the fresh start state to_regex introduces
+            taken = ["#STARTREGEX#", "#STARTREGEX#'", "#STARTREGEX#''"][:len(spec["states"])]
+            ren = dict(zip(map(falib.vkey, spec["states"]), taken))
+
+            def rn(x):
+                return ren.get(falib.vkey(x), x)
+            spec = dict(spec, states=[rn(x) for x in spec["states"]], trans=[[rn(a), l, rn(b)] for a, l, b in spec["trans"]],
+                        starts=[rn(x) for x in spec["states"][:2]], finals=[rn(x) for x in spec["finals"]], names="startregex")
         cases.append({"op": "to_regex", "fa": spec})
     return cases
 
